@@ -7,6 +7,7 @@ The patch of /verif/seeded/<seed-id>/ is applied to a scratch worktree of /repo 
 the worktree is removed; meta.json keeps the earlier outcome under 'checks_before' and gets the new one under 'checks'."""
 import os, sys, json, subprocess, tempfile, argparse, time
 VERIF = '/verif'
+RUN = os.environ.get('SEED_RUN_VERIF', VERIF)     # a private copy of /verif in which the checks are run (parallel evaluation)
 def sh(cmd, cwd=None, env=None, timeout=7200):
     p = subprocess.run(cmd, shell=True, cwd=cwd, env=env, stdout=subprocess.PIPE, stderr=subprocess.STDOUT, text=True, timeout=timeout)
     return p.returncode, p.stdout
@@ -21,13 +22,13 @@ try:
     rc, out = sh(f'git apply {os.path.join(d, "patch.diff")}', cwd=target); assert rc == 0, out
     for c in checks:
         t = time.time()
-        rc, out = sh(f'./check {c} --tier {a.tier}', cwd=VERIF, env=dict(os.environ, VERIF_REPO=target))
+        rc, out = sh(f'./check {c} --tier {a.tier}', cwd=RUN, env=dict(os.environ, VERIF_REPO=target))
         lines = [l for l in out.split('\n') if l.startswith('VIOLATION') or l.startswith(c + ' ')]
         results[c] = {'exit': rc, 'lines': lines, 'wall_s': round(time.time() - t, 1), 'against': 'scratch worktree of /repo with the patch (VERIF_REPO)'}
         print(f'{a.sid} check {c}: exit {rc}: ' + ' | '.join(lines)[:300])
 finally:
     sh(f'git -C /repo worktree remove --force {target}')
-    sh('/venv/bin/python translator/regions.py /repo', cwd=VERIF)
+    sh('/venv/bin/python translator/regions.py /repo', cwd=RUN)
 if 'checks' in meta and 'checks_before' not in meta:
     meta['checks_before'] = meta['checks']
 meta['checks'] = dict(meta.get('checks', {}), **results)
